@@ -246,8 +246,15 @@ def attach(model, capture_setup=False):
             rec.cur['post_ans'] = rec.ctx          # the last evaluation of a step is the one inside postProcess
             rec.cur['eval_ans'].append(rec.ctx)
             rec.cur['xNew'] = [_cp(x[p]) for p in range(rec.P)]
+        staged = rec.ctx is not None
         try:
-            return o_dep(t, x)
+            out = o_dep(t, x)
+            if staged:
+                # the PROCESSED vector the evaluation ran on (_processX works in place) and the nucleation rates it produced:
+                # for a Runge-Kutta step entry 2 is KWNFull.rk4X3 and the rates of KWNFull.rk4Evals(..).s4.2
+                rec.cur.setdefault('stage_xP', []).append([_cp(x[p]) for p in range(rec.P)])
+                rec.cur.setdefault('stage_nuc', []).append([float(np.ravel(m._currY.nucRate)[p]) for p in range(rec.P)])
+            return out
         finally:
             rec.ctx = None
     m._calculateDependentTerms = dep
@@ -1189,6 +1196,31 @@ def step_oracles(res, rec, cfg, name, which):
                         res.violate('composed:density-rises-more-than-nucleation', 'the state handed to postProcess holds more particles than the entry state + '
                                     'nucleation rate x recorded step', dict(scenario=name, step=i, phase=p, dt=dt, nucRate=nr, t=st['post']['hist'][0]['time']),
                                     float(xn.sum()) - float(x0.sum()), nr * dt)
+    if 'budget' in which:
+        # Runge-Kutta steps (theorem rk4Step_density_budget_partial): when the processed stage-3 vector - the one the fourth
+        # evaluation ran on - is non-negative, the accepted state holds at most the processed entry state + the FOURTH evaluation's
+        # nucleation rate x the recorded step; where the hypothesis is not met the step is counted, not judged
+        for i, st in enumerate(steps):
+            if len(st['eval_ans']) != 4 or st.get('xNew') is None or len(st.get('stage_xP', [])) < 4:
+                continue
+            dt = st['post']['hist'][0]['time'] - st['pre']['hist'][0]['time']
+            for p, pp in enumerate(st['pre']['ph']):
+                x0 = np.asarray(pp['psd'], dtype=float).copy()
+                x0[:pp['rdfIdx'] + 1] = 0; x0[np.asarray(pp['size']) < cfg['minRadius']] = 0
+                xn = np.asarray(st['xNew'][p], dtype=float); x3 = np.asarray(st['stage_xP'][2][p], dtype=float)
+                nr = st['stage_nuc'][2][p]
+                if len(xn) != len(x0) or not dt > 0:
+                    continue
+                if x0.min() < 0 or (len(x3) and x3.min() < 0):
+                    res.count('composed:rk4-budget-hypothesis-not-met(stage-3 vector has a negative class)')
+                    continue
+                res.count('composed:rk4-budget-evaluated')
+                bound = float(x0.sum()) + nr * dt
+                if float(xn.sum()) > bound + 1e-9 * (abs(float(x0.sum())) + abs(nr * dt)) + 1e-300:
+                    res.violate('composed:density-rises-more-than-nucleation-rk4', 'Runge-Kutta step: the state handed to postProcess holds more particles than the '
+                                'entry state + nucleation rate of the fourth evaluation x recorded step (stage-3 vector non-negative)',
+                                dict(scenario=name, step=i, phase=p, dt=dt, nucRate4=nr, t=st['post']['hist'][0]['time']),
+                                float(xn.sum()) - float(x0.sum()), nr * dt)
     if 'topflow' in which:
         # C02: between steps the number density changes only by nucleation and by dissolution through the SMALLEST class - what
         # the uncorrected upwind flux of the entry state would push through the upper end of the grid in this step is less than one
